@@ -27,7 +27,7 @@ struct PinD {
 struct ShapeD { int id; long cx, cy; double x0, y0, x1, y1; ShapeRef *ref; bool live; };
 struct JuncD { int id; long cx, cy; double x, y; bool fixed; JunctionRef *ref; };
 struct EndD { char kind; int obj; unsigned cls; double x, y; };   // 'P' shape+class, 'J' junction, 'F' free point
-struct ConnD { int id; bool orth; EndD e[2]; std::vector<Point> cps; ConnRef *ref; bool live; };
+struct ConnD { int id; bool orth; EndD e[2]; std::vector<Point> cps; std::vector<std::pair<unsigned, unsigned>> cpd; ConnRef *ref; bool live; };  // cpd: (arrival, departure) masks, empty = all ConnDirAll
 
 static double q4(vh::Rng &r, long lo, long hi, bool frac) {     // lo..hi, optionally with quarter fractions
     double v = (double) r.range(lo, hi);
@@ -41,8 +41,36 @@ static void pts(const char *key, int id, const PolyLine &pl) {
     printf("\n");
 }
 
+// Number of visibility edges of the whole router (polyline, invisible and orthogonal graph) and how
+// many of them are currently disabled (EdgeInf::isDisabled, set by VertInf::setVisibleDirections).
+static void countEdges(Router *rt, long &n, long &dis) {
+    n = 0; dis = 0;
+    EdgeList *ls[3] = {&rt->visGraph, &rt->invisGraph, &rt->visOrthogGraph};
+    for (int g = 0; g < 3; ++g)
+        for (EdgeInf *e = ls[g]->begin(); e != ls[g]->end(); e = e->lstNext) { ++n; if (e->isDisabled()) ++dis; }
+}
+
+// Router whose public progress callback (called by processTransaction before every connector's
+// path search, during crossing detection, before every crossing re-route search and at the end)
+// records how many visibility edges are disabled at that moment: the state "between two calls of
+// ConnRef::generatePath", which the model of generateCheckpointsPath says is "none"
+// (Model/CheckpointLegs.lean).
+struct ObsRouter : public Router {
+    std::vector<std::pair<unsigned, long>> log;
+    ObsRouter(unsigned flags) : Router(flags) {}
+    bool shouldContinueTransactionWithProgress(unsigned, unsigned phase, unsigned, double) override {
+        if (phase == TransactionPhaseRouteSearch || phase == TransactionPhaseCrossingDetection ||
+            phase == TransactionPhaseRerouteSearch || phase == TransactionPhaseCompleted) {
+            long n, d; countEdges(this, n, d);
+            if (log.size() < 400) log.push_back({phase, d});
+        }
+        return true;
+    }
+};
+
 struct Scene {
-    Router *router;
+    ObsRouter *router;
+    int stepNo = 0;
     std::vector<ShapeD> shapes; std::vector<PinD> pins; std::vector<JuncD> juncs; std::vector<ConnD> conns;
     bool frac;
 
@@ -69,6 +97,11 @@ struct Scene {
             printf("cps %d %zu", c.id, c.cps.size());
             for (auto &p : c.cps) printf(" %s %s", hx(p.x).c_str(), hx(p.y).c_str());
             printf("\n");
+            if (!c.cpd.empty()) {
+                printf("cpdirs %d %zu", c.id, c.cpd.size());
+                for (auto &d : c.cpd) printf(" %u %u", d.first, d.second);
+                printf("\n");
+            }
         }
     }
     void makeConn(ConnD &c) {
@@ -76,7 +109,8 @@ struct Scene {
         c.ref->setRoutingType(c.orth ? ConnType_Orthogonal : ConnType_PolyLine);
         if (!c.cps.empty()) {
             std::vector<Checkpoint> v;
-            for (auto &p : c.cps) v.push_back(Checkpoint(p));
+            for (size_t i = 0; i < c.cps.size(); ++i)
+                v.push_back(c.cpd.empty() ? Checkpoint(c.cps[i]) : Checkpoint(c.cps[i], (ConnDirFlags) c.cpd[i].first, (ConnDirFlags) c.cpd[i].second));
             c.ref->setRoutingCheckpoints(v);
         }
         c.live = true;
@@ -115,7 +149,56 @@ struct Scene {
             pts("route", c.id, c.ref->route());
             pts("disp", c.id, c.ref->displayRoute());
         }
+        observeVisibility();
         printf("endstep\n");
+        ++stepNo;
+    }
+    // State of the visibility-direction machinery, read through public members only (Router::vertices,
+    // VertInf::visList / orthogVisList, EdgeInf::isDisabled / otherVert, VertInf::directionFrom):
+    //   cpv <conn> <k> <n> {<orth> <objID> <vn> <x> <y> <dir> <disabled>}*n   every visibility edge of
+    //        checkpoint vertex k of the connector: the other end, its direction as seen from the
+    //        checkpoint (what setVisibleDirections tests) and whether the edge is disabled now
+    //   probe <conn> <k> <mask> <n> {<disabled>}*n   the same edges after the harness itself called
+    //        setVisibleDirections(mask) on the vertex, followed by one for the restoring call with
+    //        ConnDirAll (only for vertices none of whose edges is disabled, so the probe is state-neutral)
+    //   visall <edges> <disabled>     whole router after the transaction
+    //   viscb <m> {<phase> <disabled>}*m   whole router at every progress callback of the transaction
+    void observeVisibility() {
+        for (auto &c : conns) if (c.live && !c.cps.empty()) {
+            for (size_t k = 0; k < c.cps.size(); ++k) {
+                VertInf *v = nullptr;
+                for (VertInf *i = router->vertices.connsBegin(); i != router->vertices.shapesBegin() && i != router->vertices.end(); i = i->lstNext)
+                    if (i->id.isConnCheckpoint() && i->id.objID == c.ref->id() && i->id.vn == (unsigned short) (2 + k)) { v = i; break; }
+                if (!v) { printf("cpv %d %zu -1\n", c.id, k); continue; }
+                std::vector<EdgeInf *> es;
+                for (auto e : v->visList) es.push_back(e);
+                for (auto e : v->orthogVisList) es.push_back(e);
+                bool anyDis = false;
+                printf("cpv %d %zu %zu", c.id, k, es.size());
+                for (auto e : es) {
+                    VertInf *o = e->otherVert(v);
+                    printf(" %d %u %u %s %s %u %d", (int) e->isOrthogonal(), o->id.objID, (unsigned) o->id.vn, hx(o->point.x).c_str(), hx(o->point.y).c_str(),
+                           (unsigned) o->directionFrom(v), (int) e->isDisabled());
+                    if (e->isDisabled()) anyDis = true;
+                }
+                printf("\n");
+                if (anyDis || es.empty()) continue;
+                unsigned mask = 1 + (unsigned) ((7 * stepNo + 3 * c.id + 5 * (int) k) % 14);
+                for (int pass = 0; pass < 2; ++pass) {
+                    unsigned m = pass ? (unsigned) ConnDirAll : mask;
+                    v->setVisibleDirections((ConnDirFlags) m);
+                    printf("probe %d %zu %u %zu", c.id, k, m, es.size());
+                    for (auto e : es) printf(" %d", (int) e->isDisabled());
+                    printf("\n");
+                }
+            }
+        }
+        long n, d; countEdges(router, n, d);
+        printf("visall %ld %ld\n", n, d);
+        printf("viscb %zu", router->log.size());
+        for (auto &l : router->log) printf(" %u %ld", l.first, l.second);
+        printf("\n");
+        router->log.clear();
     }
 };
 
@@ -142,6 +225,12 @@ int main(int argc, char **argv) {
     bool borderMode = a.mode.find("border0") != std::string::npos;      // pin on the border line of its shape, shapeBufferDistance 0
     bool cpJunctionMode = a.mode.find("cpjunction") != std::string::npos; // checkpoints on a connector with a junction end
     bool delAttachedMode = a.mode.find("delattached") != std::string::npos; // deleteShape of a shape with attached connectors
+    // class cpdirs: checkpoints with arrival / departure direction masks (all 15 x 15 combinations), most
+    // connectors carry checkpoints and have a free end, crossing / shared-path penalties (the crossing stage
+    // searches a connector a second time within the transaction) and histories that drag free connector ends
+    // (a later search of the same connector over visibility edges that persisted)
+    bool cpDirsMode = a.mode.find("cpdirs") != std::string::npos;
+    if (cpDirsMode && a.n < 0) ncases = (thorough ? 2000 : 400) * a.scale;
     long from = 0;
     for (int i = 1; i + 1 < argc; ++i) if (std::string(argv[i]) == "--from") from = atol(argv[i + 1]);
     for (long k = from; k < ncases; ++k) {
@@ -214,10 +303,11 @@ int main(int argc, char **argv) {
             if (onX || onY) borderPin0 = true;
         }
         if (borderPin0 && allowOrth && !borderMode) buffer = bufs[r.range(1, 3)], borderPin0 = false;
-        const char *tag = (borderPin0 && allowOrth) ? "border0" : overcap ? "overcap" : !allowPoly ? "orth" : !allowOrth ? "poly" : "mixed";
+        const char *tag = (borderPin0 && allowOrth) ? "border0" : cpDirsMode ? (!allowPoly ? "cpdirs-orth" : !allowOrth ? "cpdirs-poly" : "cpdirs-mixed") :
+                          overcap ? "overcap" : !allowPoly ? "orth" : !allowOrth ? "poly" : "mixed";
         vh::beginCase(k, tag);
         try {
-        sc.router = new Router((allowOrth ? OrthogonalRouting : 0) | (allowPoly ? PolyLineRouting : 0));
+        sc.router = new ObsRouter((allowOrth ? OrthogonalRouting : 0) | (allowPoly ? PolyLineRouting : 0));
         sc.router->setTransactionUse(true);
         sc.router->setRoutingParameter(shapeBufferDistance, buffer);
         double nudge = r.coin() ? 4.0 : 1.0;
@@ -227,6 +317,14 @@ int main(int argc, char **argv) {
         bool hyperImprove = r.coin();
         sc.router->setRoutingOption(improveHyperedgeRoutesMovingJunctions, hyperImprove);
         printf("cfg %d %d %s %s %d\n", (int) allowOrth, (int) allowPoly, hx(buffer).c_str(), hx(nudge).c_str(), (int) hyperImprove);
+        if (cpDirsMode) {
+            static const double pens[] = {0, 0, 50, 200, 400};
+            double xpen = pens[r.range(0, 4)], spen = r.coin(1, 4) ? 110.0 : 0.0, segpen = r.coin() ? 50.0 : 10.0;
+            sc.router->setRoutingParameter(segmentPenalty, segpen);
+            sc.router->setRoutingParameter(crossingPenalty, xpen);
+            sc.router->setRoutingParameter(fixedSharedPathPenalty, spen);
+            printf("pens %s %s %s\n", hx(segpen).c_str(), hx(xpen).c_str(), hx(spen).c_str());
+        }
         for (auto &sd : sc.shapes) {
             printf("shape %d %s %s %s %s\n", sd.id, hx(sd.x0).c_str(), hx(sd.y0).c_str(), hx(sd.x1).c_str(), hx(sd.y1).c_str());
             Rectangle rect(Point(sd.x0, sd.y0), Point(sd.x1, sd.y1));
@@ -304,12 +402,13 @@ int main(int argc, char **argv) {
             return cap;
         };
         auto genConn = [&](ConnD &c) -> bool {
-            c.id = (int) sc.conns.size(); c.live = false; c.ref = nullptr; c.cps.clear();
+            c.id = (int) sc.conns.size(); c.live = false; c.ref = nullptr; c.cps.clear(); c.cpd.clear();
             c.orth = allowOrth && (!allowPoly || r.coin());
             int usedShape = -1, usedJ = -1;
             for (int e = 0; e < 2; ++e) {
                 EndD &E = c.e[e];
                 int kind = (int) r.range(0, 9);
+                if (cpDirsMode) kind = kind <= 3 ? 0 : kind <= 8 ? 9 : 6;      // 40% pin, 50% free point, 10% junction
                 E.kind = 'F';
                 if (kind <= 5) {                          // pin end
                     std::vector<std::pair<int, unsigned>> opts;
@@ -331,7 +430,7 @@ int main(int argc, char **argv) {
             }
             if (c.e[0].kind == 'F' && c.e[1].kind == 'F' && c.e[0].x == c.e[1].x && c.e[0].y == c.e[1].y) return false;
             bool hasJ = c.e[0].kind == 'J' || c.e[1].kind == 'J';
-            if (r.coin(3, 10) && (!hasJ || cpJunctionMode)) {
+            if (r.coin(cpDirsMode ? 8 : 3, 10) && (!hasJ || cpJunctionMode)) {
                 int ncp = (int) r.range(1, 3);
                 for (int i = 0; i < ncp; ++i) {
                     // on a cell border line: >= MARGIN away from every shape for the whole history
@@ -343,6 +442,14 @@ int main(int argc, char **argv) {
                     if (clash) continue;
                     cpUsed.insert({(long) p.x, (long) p.y});
                     c.cps.push_back(p);
+                }
+                if (cpDirsMode) for (size_t i = 0; i < c.cps.size(); ++i) {
+                    // (arrival, departure): 35% (All, restricted), 15% (restricted, All), 35% both restricted, 15% (All, All);
+                    // a restricted mask is a single side (60%) or any of 1..14
+                    auto restricted = [&]() -> unsigned { return r.coin(3, 5) ? (1u << r.range(0, 3)) : (unsigned) r.range(1, 14); };
+                    int w = (int) r.range(0, 19);
+                    unsigned arr = (w < 7 || w >= 17) ? 15u : restricted(), dep = (w >= 7 && w < 10) || w >= 17 ? 15u : restricted();
+                    c.cpd.push_back({arr, dep});
                 }
             }
             return true;
@@ -368,6 +475,29 @@ int main(int argc, char **argv) {
                 int kind = (int) r.range(0, 25);
                 std::vector<int> liveShapes;
                 for (auto &s : sc.shapes) if (s.live) liveShapes.push_back(s.id);
+                if (cpDirsMode && !retargeted && r.coin(1, 2)) {
+                    // drag the free end of a connector that has checkpoints: the connector is searched again
+                    // while its checkpoint vertices keep the visibility edges of the previous search
+                    std::vector<std::pair<int, int>> cand;
+                    for (auto &c : sc.conns) if (c.live && !c.cps.empty()) for (int e = 0; e < 2; ++e) if (c.e[e].kind == 'F') cand.push_back({c.id, e});
+                    if (!cand.empty()) {
+                        auto ce = r.pick(cand); ConnD &c = sc.conns[ce.first]; int e = ce.second;
+                        EndD N; N.kind = 'F'; N.obj = -1; N.cls = 0;
+                        if (freeCellBase < cells.size()) {
+                            auto cell = cells[freeCellBase + r.range(0, (long) (cells.size() - freeCellBase) - 1)];
+                            N.x = cell.first * CELL + q4(r, 8, CELL - 8, sc.frac); N.y = cell.second * CELL + q4(r, 8, CELL - 8, sc.frac);
+                        } else { N.x = (double) (r.range(0, GRID) * CELL); N.y = q4(r, 0, GRID * CELL, sc.frac); }
+                        bool clash = c.e[1 - e].kind == 'F' && c.e[1 - e].x == N.x && c.e[1 - e].y == N.y;
+                        for (auto &p : c.cps) if (p.x == N.x && p.y == N.y) clash = true;
+                        if (!clash) {
+                            retargeted = true;
+                            printf("op retarget %d %d", c.id, e); sc.emitEnd(N); printf("\n"); fflush(stdout);
+                            c.e[e] = N;
+                            if (e == 0) c.ref->setSourceEndpoint(sc.mkEnd(N)); else c.ref->setDestEndpoint(sc.mkEnd(N));
+                            continue;
+                        }
+                    }
+                }
                 if (kind == 24) {
                     // a new shape with pins, moved / resized in the SAME transaction, and a connector on it
                     if (lateShapeCell < 0) continue;
